@@ -614,7 +614,16 @@ func cmdCheck(args []string) int {
 					ee.GlobalsMutated = append(ee.GlobalsMutated, g)
 				}
 				sort.Strings(ee.GlobalsMutated)
-				for _, w := range append([]string{"end"}, es.ExpectReach...) {
+				want := append([]string{"end"}, es.ExpectReach...)
+				if u.Sched {
+					// vacuity guard of a schedule entry: the full pre-emption budget was used on some path
+					if n, ok := cfg.Bounds["PREEMPT"]; ok && n > 0 {
+						want = append(want, fmt.Sprintf("preempted x%d", n))
+					} else if !ok {
+						want = append(want, "preempted x1")
+					}
+				}
+				for _, w := range want {
 					if res.Reached[w] == 0 {
 						ee.MissingWitnesses = append(ee.MissingWitnesses, w)
 					}
